@@ -106,7 +106,8 @@ Fixpoint omat_close (a b : list (list (option Q))) : bool :=
   end.
 
 (** which: 0 process, 1 control, 2 sensor.  codes: 2 value differs from implementation,
-    3 un-flattened entries are not the by-name derivatives (oracle / layout), 0 ok *)
+    3 un-flattened entries are not sympy.diff's by-name derivatives (oracle / layout), 4 they are not the
+    verified symbolic derivative's values, 0 ok *)
 Definition check_jacobian (which : nat) (p : pydef) (readings : list (name * expr))
     (prefix : list (name * expr)) (body : list expr)
     (dtv : Q) (st ctl cal : list (name * Q)) (impl : list (list Q))
@@ -129,7 +130,14 @@ Definition check_jacobian (which : nat) (p : pydef) (readings : list (name * exp
   | None => 2%nat
   | Some J =>
       if negb (mat_close tol J impl) then 2%nat else
-      if omat_close J (oracle_mat d i aorder dexprs rows cols) then 0%nat else 3%nat
+      if negb (omat_close J (oracle_mat d i aorder dexprs rows cols)) then 3%nat else
+      (* the verified symbolic derivative (Base/Expr.deriv, correct by Theory/Deriv.deriv_correct) of the row
+         expression with respect to the column symbol, evaluated exactly at the same point *)
+      let rowexpr := fun r => match which with
+                              | S (S O) => match lookup r readings with Some e => e | None => Num 0 end
+                              | _ => d_model d r end in
+      let verified := map (fun r => map (fun c => qeval (named_env Q d i aorder) (deriv c (rowexpr r))) cols) rows in
+      if omat_close J verified then 0%nat else 4%nat
   end.
 
 Fixpoint nonzero_indexed (l : list nat) (i : nat) : list (nat * nat) :=
